@@ -38,7 +38,7 @@ m = {
                  'kind_free_text': 'Coq 8.16 theorems about a hand-written executable model (coq/), extracted to OCaml and run against the Rust implementation on generated cases (harness/, props/); translated tables regenerated from /repo into coq/gen'}],
     'checks': checks,
     'not_applicable': na,
-    'notes': 'All checks: ./pv check <id> --tier quick|thorough. Known findings: known_findings.json. See DESIGN.md.',
+    'notes': 'All checks: ./pv check <id> --tier quick|thorough (VERIF_SEED honoured). Known findings (open and fixed): known_findings.d/*.json; repairs committed to /repo as fix: commits, copies in fixes/. Seeded changes: seeded/. See DESIGN.md section 11 (as built).',
 }
 json.dump(m, open(os.path.join(ROOT, 'MANIFEST.json'), 'w'), indent=1)
 print('checks:', [c['property_id'] for c in checks], 'n/a:', len(na))
